@@ -59,6 +59,26 @@ def mixed_case(args):
     return r
 
 
+def head_blocked_case(args):
+    """one process, more tasks than slots, the oldest task runs longest: while it runs, the slots freed by the later tasks
+    must be used by the tasks still waiting (the oldest task itself waits until the last one has started)"""
+    seed, i = args
+    rng = random.Random(seed * 160481219 + i)
+    mx = rng.randint(2, 4)
+    n = mx + rng.randint(1, 3)
+    sp = t3.Spec(maxtasks=mx, bufsize=rng.choice([1, 128]))
+    vals = ["v%d" % j for j in range(n)]
+    pre = ('case {p:q} in v0) n=0; while [ ! -e "$VERIF_RDV/late" ]; do sleep 0.01; n=$((n+1)); if [ $n -gt 800 ]; then echo RDV-TIMEOUT >&2; exit 3; fi; done;; '
+           '%s) touch "$VERIF_RDV/late";; esac' % vals[-1])
+    sp.proc(t3.Proc("hb", kind="write", pars=[("q", ("V", vals))], outs=[("o", "hb.{p:q}.txt")], cores=1, pre=pre))
+    ys = (rng.randint(1, 10**6), 500) if rng.random() < 0.5 else None
+    r = t3.success_case(sp, yield_seed=ys, timeout=60, replays=("slots",))
+    if r["rc"] != 0:
+        r["problems"] = [("slots-idle", "%d one-core tasks of one process on %d slots: while the oldest task was running, the last task was never started although the tasks in between had finished and freed their slots: %s" % (n, mx, r["stderr"][-150:]))]
+    r["kind"] = "head-blocked"
+    return r
+
+
 def oversize_case(args):
     seed, i = args
     rng = random.Random(seed * 160481183 + i)
@@ -92,11 +112,12 @@ def run(rep, tier, seed):
     results = t3.run_many(rendezvous_case, [(seed, i) for i in range(n)])
     results += t3.run_many(mixed_case, [(seed, i) for i in range(n)])
     results += t3.run_many(wake_all_case, [(seed, i) for i in range(n // 2)])
+    results += t3.run_many(head_blocked_case, [(seed, i) for i in range(n // 2)])
     results += t3.run_many(oversize_case, [(seed, i) for i in range(max(6, n // 4))])
     t3.report_t3(rep, MODULE, proved, results, "T3 rendezvous / mixed cores / oversize")
     rep.cov["evaluations"] = len(results)
     rep.cov["distinct_nontrivial"] = len({r["spec"] for r in results})
-    rep.cov["rule"] = "rendezvous: k in 2..4 tasks of c in 1..3 cores with k*c <= max, each command waits (8 s bound) until all k have started, with seeded delays of up to 2 ms at every slot hook point (before the lock, after it, after each token deposit); mixed: 1-4 processes with different CoresPerTask competing under delays, must terminate and match the reference evaluator; oversize: CoresPerTask > max must exit non-zero without executing a command of that process; all cases distinct and non-trivial"
+    rep.cov["rule"] = "rendezvous: k in 2..4 tasks of c in 1..3 cores with k*c <= max, each command waits (8 s bound) until all k have started, with seeded delays of up to 2 ms at every slot hook point (before the lock, after it, after each token deposit); mixed: 1-4 processes with different CoresPerTask competing under delays, must terminate and match the reference evaluator; head-blocked: one process with more one-core tasks than slots whose oldest task waits until the newest has started (slots freed by the tasks in between must be used); oversize: CoresPerTask > max must exit non-zero without executing a command of that process; all cases distinct and non-trivial"
     rep.cov["samples"] = [results[0]["spec"]]
     kinds = {}
     for r in results:
